@@ -159,12 +159,14 @@ def load_theory_cache(filename, username="master"):
     if filename == 'hoare':
         from imperative import imp
 
-    # Load all imported theories
+    # Load all imported theories. This is done before entering the
+    # fresh_theory block: loading a theory into the cache may import
+    # modules (see above) that call load_theory, which replaces theory.thy.
     depend_list = get_import_order(cache['imports'], username)
+    prev_caches = [load_theory_cache(prev_name, username) for prev_name in depend_list]
 
     with theory.fresh_theory():
-        for prev_name in depend_list:
-            prev_cache = load_theory_cache(prev_name, username)
+        for prev_cache in prev_caches:
             for item in prev_cache['content']:
                 if item.error is None:
                     theory.thy.unchecked_extend(item.get_extension())
